@@ -1,4 +1,5 @@
 """Run scheduler scenarios against the real engine and record traces."""
+import copy
 import signal
 import random
 import itertools
@@ -39,8 +40,15 @@ def build_engine(sc, emitter='verif', parallel=()):
         if pid in parallel:
             cfg['_parallel'] = True
         if cfg.get('sops') is not None:
+            cfg['nest'] = bool(sc.get('nest'))
             procs[pid] = DirectorProbe(cfg)
             topo[pid] = {'v': ('v',), 'root': ()}
+        elif sc.get('nest'):
+            # every other process lives in a compartment of its own ('c_' + pid),
+            # wired back to the shared store: deleting / creating it is deleting /
+            # generating the compartment
+            procs['c_' + pid] = {pid: ProbeProcess(cfg)}
+            topo['c_' + pid] = {pid: {'v': ('..', 'v')}}
         else:
             procs[pid] = ProbeProcess(cfg)
             topo[pid] = {'v': ('v',)}
@@ -454,7 +462,24 @@ def director_scenario(rng, max_ts=3):
         if op and op['op'] == 'add':
             sc.setdefault('init', {})
     sc['emit_step'] = 1
+    sc['nest'] = rng.random() < 0.5
+    if sc['nest']:
+        declare_created(sc)
     return sc
+
+
+def declare_created(sc):
+    """Processes created later inside a compartment declare their variables
+    outside it ('..'); such a variable would start as None instead of its
+    default (a recorded finding of C09, see known_findings.jsonl).  These
+    scenarios are about scheduling, so the directors declare (and see) the
+    variables of the processes they create from the start."""
+    for cfg in sc['procs'].values():
+        for op in cfg.get('sops') or []:
+            if op and op['op'] == 'add':
+                for var in op['cfg']['vars']:
+                    if var not in cfg['vars']:
+                        cfg['vars'] = list(cfg['vars']) + [var]
 
 
 def recreate_scenarios():
@@ -471,6 +496,11 @@ def recreate_scenarios():
                 p2 = {'vars': ['p2'], 'writes': {}, 'ts': [when], 'cond': [True],
                       'sops': [{'op': 'add', 'q': 'p3', 'cfg': cfg3}]}
                 p3 = {'vars': ['p3', 's'], 'writes': {'s': [1]}, 'ts': [ts_old], 'cond': [True]}
-                out.append({'procs': {'p1': p1, 'p2': p2, 'p3': p3}, 'order': ['p1', 'p2', 'p3'],
-                            'calls': [[8, True]], 'emit_step': 1, 'init': {}})
+                for nest in (False, True):
+                    sc = {'procs': copy.deepcopy({'p1': p1, 'p2': p2, 'p3': p3}),
+                          'order': ['p1', 'p2', 'p3'], 'nest': nest,
+                          'calls': [[8, True]], 'emit_step': 1, 'init': {}}
+                    if nest:
+                        declare_created(sc)
+                    out.append(sc)
     return out
